@@ -22,6 +22,7 @@ type concSpec struct {
 	Objs       []string `json:"objs"` // host value encodings
 	Goroutines int      `json:"goroutines"`
 	Rounds     int      `json:"rounds"`
+	SharedVar  bool     `json:"sharedvar"` // separate: every evaluator is given the SAME array and hash objects as variables
 }
 
 func concRuns(path string) {
@@ -107,6 +108,10 @@ func concRuns(path string) {
 		case "separate":
 			var wg sync.WaitGroup
 			results := make([]string, s.Goroutines)
+			// values no script modifies, handed to all the evaluators (an allow-list the host builds once)
+			sharedArr := &object.Array{Elements: []object.Object{&object.String{Value: "bob"}, &object.String{Value: "alice"}, &object.Integer{Value: 7},
+				&object.String{Value: "a"}, &object.String{Value: "b"}, &object.String{Value: "c"}, &object.Float{Value: 2.5}}}
+			sharedStr := &object.String{Value: "héllo wörld"}
 			for g := 0; g < s.Goroutines; g++ {
 				wg.Add(1)
 				go func(g int) {
@@ -119,6 +124,10 @@ func concRuns(path string) {
 						src := strings.ReplaceAll(tmpl, "@U@", fmt.Sprintf("q%dx%dx%d", i, g, r))
 						e := evalfilter.New(src)
 						e.AddFunction("t", func(args []object.Object) object.Object { return &object.Void{} })
+						if s.SharedVar {
+							e.SetVariable("allow", sharedArr)
+							e.SetVariable("greeting", sharedStr)
+						}
 						if err := e.Prepare(); err != nil {
 							acc += "P"
 							continue
